@@ -80,6 +80,28 @@ def handle (cmd : String) (args : List String) : Option String :=
         let rs := if rows == "~" then [] else rows.splitOn "/"
         some s!"ok={b01 (benchOKB bs)} closed={b01 (benchClosedB bs)} names={names} {joinOr "/" (rs.map (semRow bs))}"
     | _ => some "bad-args"
+  else if cmd == "bencharity" then     -- domain predicate `benchArityB` (audit finding 1 / D33)
+    match args with
+    | [toks] =>
+      let ts := if toks == "~" then [] else toks.splitOn ","
+      match parseBench (ts.length + 1) ts with
+      | none => some "bad-statements"
+      | some bs => some s!"arity={b01 (benchArityB bs)}"
+    | _ => some "bad-args"
+  else if cmd == "verilogarity" then   -- domain predicate `vArityB`
+    match args with
+    | [table, toks] =>
+      let ts := if toks == "~" then [] else toks.splitOn ","
+      match ts with
+      | np :: rest =>
+        match takeNames np.toNat! rest with
+        | none => some "bad-ports"
+        | some (_, rest') =>
+          match parseStmts (rest'.length + 1) rest' with
+          | none => some "bad-statements"
+          | some rs => some s!"arity={b01 (vArityB (tlOf (parseTable table)) (rs.map transform))}"
+      | [] => some "bad-ports"
+    | _ => some "bad-args"
   else if cmd == "verilogsem" then
     match args with
     | [cfg, table, toks, rows] =>
